@@ -211,6 +211,10 @@ func famCompare(dir string, seed int64, tier string) {
 			}
 		}
 	}
+	// literal (and string / type name) tokens with NUMERIC texts: ordered bytewise like every other text
+	for _, txt := range []string{"10", "9", "1a", "-5", "-10", "1e3", "0.5", "100", "1.50", "1.5", "007", "7", "+7", "1E3", "0x10", "Inf", "NaN", ""} {
+		alpha = append(alpha, sb.Token{Kind: sb.KindLiteral, Value: txt}, sb.Token{Kind: sb.KindString, Value: txt})
+	}
 	byKind := map[sb.Kind][]sb.Token{}
 	for _, t := range alpha {
 		byKind[t.Kind] = append(byKind[t.Kind], t)
